@@ -237,6 +237,7 @@ fn generate(rng: &mut Rng) -> C16Sc {
             stop_at_ns: None,
             stop_before: false,
             yields_before_stop: 0,
+            relisten: false,
             cap_ns: uptime + secs(700),
         },
         hostile_kinds: kinds,
